@@ -1,60 +1,73 @@
 // C13 extraction table: Box<Vec2>, Box<Vec3> (the hand-unrolled specialisations),
 // Box<Vec4> (the GENERIC template: loops over dimensions), Interval, and the
 // point/box algorithms of ImathBoxAlgo.h (clip, closestPointInBox, closestPointOnBox).
-// transform/affineTransform are H-route (Model/BoxTransform.lean).
+// transform/affineTransform: second extractor (ops_c13t.h) + hand model Model/BoxTransform.lean.
+// EXTRACT_ALLT: translator validation at all seven element types (double, float, half, int, short, int64, unsigned char) —
+// the members only compare, add, subtract and halve, so every type runs the same template (audit C13 W5); only
+// `Vec3 * Matrix44` (a division by w) stays at float/double.
 #define BX(V) Box<V<T>>
 #define INB(V, n) auto n = c.template in<Box<V<T>>> (#n)
 #define INV(V, n) auto n = c.template in<V<T>> (#n)
 
 #define BOXOPS(M, V, id, L)                                                                                         \
-    EXTRACT (M, id##_default, L ".default", { BX (V) b; c.out (b); })                                                \
-    EXTRACT (M, id##_makeEmpty, L ".makeEmpty", { INB (V, b); b.makeEmpty (); c.out (b); })                          \
-    EXTRACT (M, id##_makeInfinite, L ".makeInfinite", { INB (V, b); b.makeInfinite (); c.out (b); })                 \
-    EXTRACT (M, id##_ofPoint, L ".ofPoint", { INV (V, p); BX (V) b (p); c.out (b); })                                \
-    EXTRACT (M, id##_ofMinMax, L ".ofMinMax", { INV (V, lo); INV (V, hi); BX (V) b (lo, hi); c.out (b); })           \
-    EXTRACT (M, id##_extendByPoint, L ".extendByPoint", { INB (V, b); INV (V, p); b.extendBy (p); c.out (b); })      \
-    EXTRACT (M, id##_extendByBox, L ".extendByBox", { INB (V, b); INB (V, o); b.extendBy (o); c.out (b); })          \
-    EXTRACT (M, id##_intersectsPoint, L ".intersectsPoint", { INB (V, b); INV (V, p); c.outB (b.intersects (p)); })  \
-    EXTRACT (M, id##_intersectsBox, L ".intersectsBox", { INB (V, b); INB (V, o); c.outB (b.intersects (o)); })      \
-    EXTRACT (M, id##_isEmpty, L ".isEmpty", { INB (V, b); c.outB (b.isEmpty ()); })                                  \
-    EXTRACT (M, id##_hasVolume, L ".hasVolume", { INB (V, b); c.outB (b.hasVolume ()); })                            \
-    EXTRACT (M, id##_isInfinite, L ".isInfinite", { INB (V, b); c.outB (b.isInfinite ()); })                         \
-    EXTRACT (M, id##_size, L ".size", { INB (V, b); c.out (b.size ()); })                                            \
-    EXTRACT (M, id##_center, L ".center", { INB (V, b); c.out (b.center ()); })                                      \
-    EXTRACT (M, id##_majorAxis, L ".majorAxis", { INB (V, b); c.outI ((long) b.majorAxis ()); })                     \
-    EXTRACT (M, id##_eq, L ".eq", { INB (V, a); INB (V, b); c.outB (a == b); })                                      \
-    EXTRACT (M, id##_ne, L ".ne", { INB (V, a); INB (V, b); c.outB (a != b); })
+    EXTRACT_ALLT (M, id##_default, L ".default", { BX (V) b; c.out (b); })                                                \
+    EXTRACT_ALLT (M, id##_makeEmpty, L ".makeEmpty", { INB (V, b); b.makeEmpty (); c.out (b); })                          \
+    EXTRACT_ALLT (M, id##_makeInfinite, L ".makeInfinite", { INB (V, b); b.makeInfinite (); c.out (b); })                 \
+    EXTRACT_ALLT (M, id##_ofPoint, L ".ofPoint", { INV (V, p); BX (V) b (p); c.out (b); })                                \
+    EXTRACT_ALLT (M, id##_ofMinMax, L ".ofMinMax", { INV (V, lo); INV (V, hi); BX (V) b (lo, hi); c.out (b); })           \
+    EXTRACT_ALLT (M, id##_extendByPoint, L ".extendByPoint", { INB (V, b); INV (V, p); b.extendBy (p); c.out (b); })      \
+    EXTRACT_ALLT (M, id##_extendByBox, L ".extendByBox", { INB (V, b); INB (V, o); b.extendBy (o); c.out (b); })          \
+    EXTRACT_ALLT (M, id##_intersectsPoint, L ".intersectsPoint", { INB (V, b); INV (V, p); c.outB (b.intersects (p)); })  \
+    EXTRACT_ALLT (M, id##_intersectsBox, L ".intersectsBox", { INB (V, b); INB (V, o); c.outB (b.intersects (o)); })      \
+    EXTRACT_ALLT (M, id##_isEmpty, L ".isEmpty", { INB (V, b); c.outB (b.isEmpty ()); })                                  \
+    EXTRACT_ALLT (M, id##_hasVolume, L ".hasVolume", { INB (V, b); c.outB (b.hasVolume ()); })                            \
+    EXTRACT_ALLT (M, id##_isInfinite, L ".isInfinite", { INB (V, b); c.outB (b.isInfinite ()); })                         \
+    EXTRACT_ALLT (M, id##_size, L ".size", { INB (V, b); c.out (b.size ()); })                                            \
+    EXTRACT_ALLT (M, id##_center, L ".center", { INB (V, b); c.out (b.center ()); })                                      \
+    EXTRACT_ALLT (M, id##_majorAxis, L ".majorAxis", { INB (V, b); c.outI ((long) b.majorAxis ()); })                     \
+    EXTRACT_ALLT (M, id##_eq, L ".eq", { INB (V, a); INB (V, b); c.outB (a == b); })                                      \
+    EXTRACT_ALLT (M, id##_ne, L ".ne", { INB (V, a); INB (V, b); c.outB (a != b); })
 
 BOXOPS ("C13Box", Vec2, box2, "Box2")
 BOXOPS ("C13Box", Vec3, box3, "Box3")
 BOXOPS ("C13Box", Vec4, box4, "Box4")
 
 #define INI(n) auto n = c.template in<Interval<T>> (#n)
-EXTRACT ("C13Interval", iv_default, "Interval.default", { Interval<T> b; c.out (b); })
-EXTRACT ("C13Interval", iv_makeEmpty, "Interval.makeEmpty", { INI (b); b.makeEmpty (); c.out (b); })
-EXTRACT ("C13Interval", iv_makeInfinite, "Interval.makeInfinite", { INI (b); b.makeInfinite (); c.out (b); })
-EXTRACT ("C13Interval", iv_ofPoint, "Interval.ofPoint", { T p = c.inS ("p"); Interval<T> b (p); c.out (b); })
-EXTRACT ("C13Interval", iv_ofMinMax, "Interval.ofMinMax", { T lo = c.inS ("lo"); T hi = c.inS ("hi"); Interval<T> b (lo, hi); c.out (b); })
-EXTRACT ("C13Interval", iv_extendByPoint, "Interval.extendByPoint", { INI (b); T p = c.inS ("p"); b.extendBy (p); c.out (b); })
-EXTRACT ("C13Interval", iv_extendByBox, "Interval.extendByBox", { INI (b); INI (o); b.extendBy (o); c.out (b); })
-EXTRACT ("C13Interval", iv_intersectsPoint, "Interval.intersectsPoint", { INI (b); T p = c.inS ("p"); c.outB (b.intersects (p)); })
-EXTRACT ("C13Interval", iv_intersectsBox, "Interval.intersectsBox", { INI (b); INI (o); c.outB (b.intersects (o)); })
-EXTRACT ("C13Interval", iv_isEmpty, "Interval.isEmpty", { INI (b); c.outB (b.isEmpty ()); })
-EXTRACT ("C13Interval", iv_hasVolume, "Interval.hasVolume", { INI (b); c.outB (b.hasVolume ()); })
-EXTRACT ("C13Interval", iv_isInfinite, "Interval.isInfinite", { INI (b); c.outB (b.isInfinite ()); })
-EXTRACT ("C13Interval", iv_size, "Interval.size", { INI (b); c.outS (b.size ()); })
-EXTRACT ("C13Interval", iv_center, "Interval.center", { INI (b); c.outS (b.center ()); })
-EXTRACT ("C13Interval", iv_eq, "Interval.eq", { INI (a); INI (b); c.outB (a == b); })
-EXTRACT ("C13Interval", iv_ne, "Interval.ne", { INI (a); INI (b); c.outB (a != b); })
+EXTRACT_ALLT ("C13Interval", iv_default, "Interval.default", { Interval<T> b; c.out (b); })
+EXTRACT_ALLT ("C13Interval", iv_makeEmpty, "Interval.makeEmpty", { INI (b); b.makeEmpty (); c.out (b); })
+EXTRACT_ALLT ("C13Interval", iv_makeInfinite, "Interval.makeInfinite", { INI (b); b.makeInfinite (); c.out (b); })
+EXTRACT_ALLT ("C13Interval", iv_ofPoint, "Interval.ofPoint", { T p = c.inS ("p"); Interval<T> b (p); c.out (b); })
+EXTRACT_ALLT ("C13Interval", iv_ofMinMax, "Interval.ofMinMax", { T lo = c.inS ("lo"); T hi = c.inS ("hi"); Interval<T> b (lo, hi); c.out (b); })
+EXTRACT_ALLT ("C13Interval", iv_extendByPoint, "Interval.extendByPoint", { INI (b); T p = c.inS ("p"); b.extendBy (p); c.out (b); })
+EXTRACT_ALLT ("C13Interval", iv_extendByBox, "Interval.extendByBox", { INI (b); INI (o); b.extendBy (o); c.out (b); })
+EXTRACT_ALLT ("C13Interval", iv_intersectsPoint, "Interval.intersectsPoint", { INI (b); T p = c.inS ("p"); c.outB (b.intersects (p)); })
+EXTRACT_ALLT ("C13Interval", iv_intersectsBox, "Interval.intersectsBox", { INI (b); INI (o); c.outB (b.intersects (o)); })
+EXTRACT_ALLT ("C13Interval", iv_isEmpty, "Interval.isEmpty", { INI (b); c.outB (b.isEmpty ()); })
+EXTRACT_ALLT ("C13Interval", iv_hasVolume, "Interval.hasVolume", { INI (b); c.outB (b.hasVolume ()); })
+EXTRACT_ALLT ("C13Interval", iv_isInfinite, "Interval.isInfinite", { INI (b); c.outB (b.isInfinite ()); })
+EXTRACT_ALLT ("C13Interval", iv_size, "Interval.size", { INI (b); c.outS (b.size ()); })
+// Interval<T>::center() is the SCALAR expression (max + min) / 2: for short / unsigned char the operands are promoted to int, so
+// the real code does not wrap where the tree evaluated at T would (a property of C++ integer promotion, not of the template);
+// translator validation of this one entry therefore runs at the five types whose arithmetic is closed (Box<Vec<short>>::center()
+// goes through Vec<short>::operator+, which truncates to short, and is validated at all seven).
+#define EXTRACT_CLOSED_T(module, ident, leanname, ...)                                                   \
+    struct X_##ident { template <class T> static void run (symns::Ctx<T>& c) __VA_ARGS__ };            \
+    static int reg_##ident = (symns::entries ().push_back (symns::Entry{module, leanname, symns::Opts (), &X_##ident::run<symns::Sym>, \
+        {{"double", symns::makeTV<double> (&X_##ident::run<double>)}, {"float", symns::makeTV<float> (&X_##ident::run<float>)},  \
+         {"half", symns::makeTV<half> (&X_##ident::run<half>)}, {"int", symns::makeTV<int> (&X_##ident::run<int>)},              \
+         {"int64", symns::makeTV<int64_t> (&X_##ident::run<int64_t>)}}, symns::makeRun (&X_##ident::run<double>)}), 0);
+EXTRACT_CLOSED_T ("C13Interval", iv_center, "Interval.center", { INI (b); c.outS (b.center ()); })
+EXTRACT_ALLT ("C13Interval", iv_eq, "Interval.eq", { INI (a); INI (b); c.outB (a == b); })
+EXTRACT_ALLT ("C13Interval", iv_ne, "Interval.ne", { INI (a); INI (b); c.outB (a != b); })
 
 // ImathBoxAlgo.h
 #define CLIPOPS(V, id, L)                                                                                             \
-    EXTRACT ("C13Algo", id##_clip, L ".clip", { INV (V, p); INB (V, b); c.out (clip (p, b)); })                        \
-    EXTRACT ("C13Algo", id##_closestIn, L ".closestPointInBox", { INV (V, p); INB (V, b); c.out (closestPointInBox (p, b)); })
+    EXTRACT_ALLT ("C13Algo", id##_clip, L ".clip", { INV (V, p); INB (V, b); c.out (clip (p, b)); })                   \
+    EXTRACT_ALLT ("C13Algo", id##_closestIn, L ".closestPointInBox", { INV (V, p); INB (V, b); c.out (closestPointInBox (p, b)); })
 CLIPOPS (Vec2, algo2, "Box2")
 CLIPOPS (Vec3, algo3, "Box3")
 CLIPOPS (Vec4, algo4, "Box4")
-EXTRACT_OPT ("C13Algo", algo3_closestOn, "Box3.closestPointOnBox", symns::Opts ().paths (5000),
+EXTRACT_ALLT_OPT ("C13Algo", algo3_closestOn, "Box3.closestPointOnBox", symns::Opts ().paths (5000),
              { INV (Vec3, p); INB (Vec3, b); c.out (closestPointOnBox (p, b)); })
 // Vec3 * Matrix44 with homogeneous divide, as used on the eight corners by the projective path of transform()
 EXTRACT ("C13Algo", algo_vecTimesM44, "BoxAlgo.vecTimesM44", { INV (Vec3, v); auto m = c.template in<Matrix44<T>> ("m"); c.out (v * m); })
